@@ -35,8 +35,10 @@ type c12Scn struct {
 	Attempts     []c12Attempt `json:"attempts"`
 	Args         []string     `json:"args,omitempty"`
 	// ArgvRuntime: the operands are not given in Config.Args but assigned to ARGV in BEGIN
-	ArgvRuntime bool       `json:"argv_runtime,omitempty"`
-	Stdin       core.Bytes `json:"stdin"`
+	ArgvRuntime bool `json:"argv_runtime,omitempty"`
+	// ViaContext: run through interp.New + ExecuteContext with a context that is never cancelled
+	ViaContext bool       `json:"via_context,omitempty"`
+	Stdin      core.Bytes `json:"stdin"`
 	// Faults: virtual name -> fault of the OpenFile seam (custom open only)
 	Faults map[string]string `json:"faults,omitempty"`
 }
@@ -94,7 +96,7 @@ func (c12Engine) BudgetS(tier string) int {
 func (c12Engine) Workers(tier string) int { return 0 }
 func (c12Engine) NewScenario() any        { return &c12Scn{} }
 
-var c12Kinds = []string{"write", "append", "printf", "pipe-out", "pipe-in", "pipe-in-var", "read", "read-var", "system", "close", "fflush", "write", "read"}
+var c12Kinds = []string{"exit", "write", "append", "printf", "pipe-out", "pipe-in", "pipe-in-var", "read", "read-var", "system", "close", "fflush", "write", "read"}
 
 func (c12Engine) Gen(r *core.Rand, tier string, i int) any {
 	sc := &c12Scn{}
@@ -144,6 +146,7 @@ func (c12Engine) Gen(r *core.Rand, tier string, i int) any {
 		}
 	}
 	sc.ArgvRuntime = len(sc.Args) > 0 && r.Chance(1, 3)
+	sc.ViaContext = r.Chance(1, 4)
 	sc.Stdin = core.Bytes("s1\ns2\ns3\n")
 	if sc.CustomOpen && r.Chance(1, 6) {
 		sc.Faults = map[string]string{core.Pick(r, []string{"out1", "in1", "out2"}): core.Pick(r, []string{"enoent", "eacces", "devfull", "readonly", "emfile", "emfile"})}
@@ -229,6 +232,9 @@ func c12Build(sc *c12Scn, nameOf func(target string) string, args []string) (src
 			op = fmt.Sprintf("r%d = close(%s)", k, expr)
 		case "fflush":
 			op = fmt.Sprintf("r%d = fflush()", k)
+		case "exit":
+			// END still runs after an exit in BEGIN or in a rule
+			op = fmt.Sprintf("r%d = 0; done(%d, 0); if (!inend) exit", k, k)
 		}
 		stmt := fmt.Sprintf("mark(%d); %s; done(%d, r%d)", k, op, k, k)
 		if a.Guard > 0 && a.Guard < k {
@@ -260,7 +266,7 @@ func c12Build(sc *c12Scn, nameOf func(target string) string, args []string) (src
 		sb.WriteString("NR == 1 { " + strings.Join(rule, "; ") + " }\n")
 	}
 	sb.WriteString("{ seen(FILENAME, $0) }\n")
-	sb.WriteString("END { " + strings.Join(end, "; ") + " }\n")
+	sb.WriteString("END { inend = 1; " + strings.Join(end, "; ") + " }\n")
 	return sb.String(), vars, environ, firstLine
 }
 
@@ -431,7 +437,17 @@ func (e c12Engine) Run(scAny any, keep bool) (out core.Outcome) {
 	}
 	before := dirListing(fs.Dir)
 	cwdBefore := dirListing(cwd)
-	res := execProgram(prog, cfg)
+	var res execResult
+	if sc.ViaContext {
+		it, ierr := interp.New(prog)
+		if ierr != nil {
+			core.Fatal("C12: New: %v", ierr)
+		}
+		ctx := core.NewSimContext()
+		res = guarded(func() (int, error) { return it.ExecuteContext(ctx, cfg) })
+	} else {
+		res = execProgram(prog, cfg)
+	}
 	after := dirListing(fs.Dir)
 	cwdAfter := dirListing(cwd)
 	var started []string
@@ -518,8 +534,14 @@ func (e c12Engine) Run(scAny any, keep bool) (out core.Outcome) {
 			}
 		}
 	}
+	exited := false // an exit in BEGIN or in a rule ends the main loop early: operands may never be reached
+	for _, k := range st.marks {
+		if a := sc.Attempts[k-1]; a.Kind == "exit" && a.Where != "end" {
+			exited = true
+		}
+	}
 	// a file operand under NoFileReads must end the run with an error when it is reached
-	if sc.NoFileReads && res.Err == nil {
+	if sc.NoFileReads && res.Err == nil && !exited {
 		reached := true
 		for _, k := range st.marks {
 			if _, ok := st.dones[k]; !ok {
@@ -668,7 +690,7 @@ func (e c12Engine) Run(scAny any, keep bool) (out core.Outcome) {
 		}
 	}
 	sharedStdin = sharedStdin || firstLine != ""
-	if sc.NoFileReads && res.Err == nil && len(sc.Args) == 0 && !sharedStdin {
+	if sc.NoFileReads && res.Err == nil && len(sc.Args) == 0 && !sharedStdin && !exited {
 		n := 0
 		for _, s := range st.seen {
 			if strings.HasPrefix(s, "-:s") || strings.HasPrefix(s, ":s") {
@@ -738,6 +760,12 @@ func (c12Engine) Shrink(scAny any) []any {
 	}
 	if !sc.CustomOpen {
 		add(func(c *c12Scn) { c.CustomOpen = true })
+	}
+	if sc.ViaContext {
+		add(func(c *c12Scn) { c.ViaContext = false })
+	}
+	if sc.ArgvRuntime {
+		add(func(c *c12Scn) { c.ArgvRuntime = false })
 	}
 	return out
 }
